@@ -67,6 +67,24 @@ pub fn coalesce(expression: Expression, identifiers: &HashMap<String, Expression
     }
 }
 
+// Returns the field of an expression that can be stored as a matrix cell.
+fn matrix_cell(expression: &Expression) -> Option<&String> {
+    match expression {
+        Expression::BooleanExpression(left, _, right) => match (&**left, &**right) {
+            (
+                Expression::Cast(field, _) | Expression::Field(field),
+                Expression::Boolean(_)
+                | Expression::Float(_)
+                | Expression::Integer(_)
+                | Expression::Null,
+            ) => Some(field),
+            (_, _) => None,
+        },
+        Expression::Nested(field, _) | Expression::Search(_, field, _) => Some(field),
+        _ => None,
+    }
+}
+
 pub fn matrix(expression: Expression) -> Expression {
     match expression {
         Expression::BooleanGroup(BoolSym::And, expressions) => {
@@ -183,24 +201,13 @@ pub fn matrix(expression: Expression) -> Expression {
                             let mut lookup = HashMap::new();
                             let mut valid = true;
                             for expression in &expressions {
-                                match expression {
-                                    Expression::BooleanExpression(left, _, _) => match **left {
-                                        Expression::Cast(ref field, _)
-                                        | Expression::Field(ref field) => {
-                                            if lookup.contains_key(field) {
-                                                valid = false;
-                                                break;
-                                            }
-                                            lookup.insert(field.clone(), expression.clone());
-                                        }
-                                        _ => {}
-                                    },
-                                    Expression::Nested(field, _)
-                                    | Expression::Search(_, field, _) => {
-                                        if lookup.contains_key(field) {
-                                            valid = false;
-                                            break;
-                                        }
+                                // NOTE: Every expression must be a cell with a column of its
+                                // own, otherwise it would be lost when the row is built
+                                match matrix_cell(expression) {
+                                    Some(field)
+                                        if columns.contains(field)
+                                            && !lookup.contains_key(field) =>
+                                    {
                                         lookup.insert(field.clone(), expression.clone());
                                     }
                                     _ => {
